@@ -132,6 +132,11 @@ type CR3Parts struct {
 	PrvwW, PrvwH           uint16
 	CTBOOver               int // declared CTBO item count exceeds the items present by this much (malformed variant)
 	TopNoise               int // sprinkle unknown / opaque boxes between the top-level boxes too
+	NoMdat                 bool // the file ends with the last metadata box (no trailing mdat)
+	// Align > 0: a free box is inserted as the first child of moov so that the header of a
+	// randomly chosen nested box (64-bit headers preferred) starts Align-1 bytes before a 4 KiB
+	// boundary of the stream, i.e. where a 4 KiB buffered reader has only that much left.
+	Align int
 }
 
 // CR3 is a generated file and its ground truth.
@@ -246,7 +251,39 @@ func BuildCR3(r *core.Rng, p CR3Parts, noise int, large64 bool) CR3 {
 		named["uuid-preview"] = pv
 		top = append(top, pv)
 	}
-	top = append(top, &Box{Type: "mdat", Payload: r.Bytes(r.Range(64, 2000)), Large: large64 && r.Bool(), Tag: "mdat"})
+	if !p.NoMdat {
+		top = append(top, &Box{Type: "mdat", Payload: r.Bytes(r.Range(64, 2000)), Large: large64 && r.Bool(), Tag: "mdat"})
+	}
+	if p.Align > 0 {
+		var scratch []byte
+		for _, b := range top {
+			scratch = b.Serialise(scratch)
+		}
+		var cands, large []*Box
+		var walk func(b *Box)
+		walk = func(b *Box) {
+			for _, k := range b.Kids {
+				cands = append(cands, k)
+				if k.Large {
+					large = append(large, k)
+				}
+				walk(k)
+			}
+		}
+		walk(moov)
+		if len(large) > 0 && r.Chance(3, 4) {
+			cands = large
+		}
+		if len(cands) > 0 {
+			t := cands[r.Intn(len(cands))]
+			want := 4096 - (p.Align - 1)
+			pad := ((want-t.Off)%4096 + 4096) % 4096
+			if pad < 8 {
+				pad += 4096
+			}
+			moov.Kids = append([]*Box{{Type: "free", Payload: r.Bytes(pad - 8), Tag: "align"}}, moov.Kids...)
+		}
+	}
 	if p.TopNoise > 0 {
 		var t2 []*Box
 		for i, b := range top {
